@@ -9,7 +9,8 @@
 //	assignments, x++, x--      -> printed text
 //	return / continue / break  -> printed text
 //	expression statements, defer, go -> printed text, EXCEPT calls whose selector root is in `ignore`
-//	                              (default: corelog) — logging is not behaviour
+//	                              (default: corelog) — logging is not behaviour; closures (`go func(){…}()`,
+//	                              `x := func(){…}`, `f(func(){…})`) are entered, not printed wholesale
 //	var declarations           -> printed text
 //
 // Comments never appear (the printer is run on the bare node).  A Lean theorem
@@ -61,6 +62,20 @@ func (c *flowCtx) ignorable(e ast.Expr) bool {
 		root = s[:i]
 	}
 	return c.ignore[root]
+}
+
+// call emits "go f(x)" / "defer f(x)"; a closure called in place is entered.
+func (c *flowCtx) call(kw string, ce *ast.CallExpr) {
+	if c.ignorable(ce) {
+		return
+	}
+	if fl, ok := ce.Fun.(*ast.FuncLit); ok {
+		c.emit(kw + " func")
+		c.block(fl.Body.List)
+		c.emit("end()")
+		return
+	}
+	c.emit(kw + " " + nodeStr(ce))
 }
 
 func (c *flowCtx) emit(s string) { c.out = append(c.out, s) }
@@ -143,16 +158,34 @@ func (c *flowCtx) stmt(s ast.Stmt) {
 		}
 		c.emit("end")
 	case *ast.ExprStmt:
-		if !c.ignorable(s.X) {
-			c.emit(nodeStr(s.X))
+		if c.ignorable(s.X) {
+			break
 		}
+		// f(func() { … }): recurse into the closure instead of printing it (and its logging) wholesale
+		if ce, ok := s.X.(*ast.CallExpr); ok && len(ce.Args) == 1 {
+			if fl, ok := ce.Args[0].(*ast.FuncLit); ok {
+				c.emit(nodeStr(ce.Fun) + "(func")
+				c.block(fl.Body.List)
+				c.emit("end)")
+				break
+			}
+		}
+		c.emit(nodeStr(s.X))
 	case *ast.DeferStmt:
-		if !c.ignorable(s.Call) {
-			c.emit("defer " + nodeStr(s.Call))
-		}
+		c.call("defer", s.Call)
 	case *ast.GoStmt:
-		c.emit("go " + nodeStr(s.Call))
-	case *ast.AssignStmt, *ast.IncDecStmt, *ast.ReturnStmt, *ast.BranchStmt, *ast.DeclStmt:
+		c.call("go", s.Call)
+	case *ast.AssignStmt:
+		if len(s.Rhs) == 1 && len(s.Lhs) == 1 {
+			if fl, ok := s.Rhs[0].(*ast.FuncLit); ok {
+				c.emit(nodeStr(s.Lhs[0]) + " " + s.Tok.String() + " func")
+				c.block(fl.Body.List)
+				c.emit("end")
+				break
+			}
+		}
+		c.emit(nodeStr(s))
+	case *ast.IncDecStmt, *ast.ReturnStmt, *ast.BranchStmt, *ast.DeclStmt, *ast.SendStmt:
 		c.emit(nodeStr(s))
 	case *ast.EmptyStmt:
 	default:
